@@ -154,6 +154,11 @@ func runProp[C any](t *testing.T, id string, gen func(*rapid.T) C, run func(C) *
 		if err != nil {
 			panic(err)
 		}
+		// the case about to run is left on disk: if the process dies inside it (fatal error, memory exhaustion, a panic in
+		// a goroutine of the code under test) the driver still has the input that did it
+		if tp := os.Getenv("VERIF_TRACE_CASE"); tp != "" {
+			_ = os.WriteFile(tp, caseJSON, 0o644)
+		}
 		o := safeRun(run, c)
 		viol := account(id, caseJSON, o)
 		if len(viol) > 0 {
